@@ -343,3 +343,337 @@ pub fn run_idt(out: &mut Out, seed: u64, n: u64) {
             .raw("instrs", &cpu::instrs_json(&ins)),
     );
 }
+
+// ------------------------------------------------------------------------------------------
+// C13: set_general_handler and simulated interrupt delivery
+
+use std::sync::atomic::{AtomicI32, AtomicU64, Ordering::SeqCst};
+use x86_64::set_general_handler;
+use x86_64::structures::idt::{InterruptStackFrame, InterruptStackFrameValue};
+
+static PIPE_W: AtomicI32 = AtomicI32::new(-1);
+static GH_CALLS: AtomicU64 = AtomicU64::new(0);
+
+fn send(rec: &[u64; 10]) {
+    let fd = PIPE_W.load(SeqCst);
+    if fd >= 0 {
+        unsafe { libc::write(fd, rec.as_ptr() as *const libc::c_void, 80) };
+    }
+}
+
+/// the general handler: reports what it was called with (record type 1)
+fn gh(frame: InterruptStackFrame, index: u8, err: Option<u64>) {
+    let n = GH_CALLS.fetch_add(1, SeqCst) + 1;
+    let f: &InterruptStackFrameValue = &frame;
+    send(&[
+        1,
+        index as u64,
+        err.is_some() as u64,
+        err.unwrap_or(0),
+        f.instruction_pointer.as_u64(),
+        f.code_segment.0 as u64,
+        f.cpu_flags.bits(),
+        f.stack_pointer.as_u64(),
+        f.stack_segment.0 as u64,
+        n,
+    ]);
+    if index == 8 || index == 18 {
+        // diverging vectors never return to the interrupted code
+        unsafe { libc::_exit(0) };
+    }
+}
+/// a second, distinguishable general handler (pre-populated tables)
+fn gh_other(_frame: InterruptStackFrame, _index: u8, _err: Option<u64>) {
+    send(&[9, 0, 0, 0, 0, 0, 0, 0, 0, 0]);
+}
+
+fn install_incl(idt: &mut Idt, lo: u8, hi: u8) {
+    set_general_handler!(idt, gh, lo..=hi);
+}
+fn install_excl(idt: &mut Idt, lo: u8, hi: u8) {
+    set_general_handler!(idt, gh, lo..hi);
+}
+fn install_all(idt: &mut Idt) {
+    set_general_handler!(idt, gh);
+}
+fn install_other(idt: &mut Idt) {
+    set_general_handler!(idt, gh_other);
+}
+fn install_lit(idt: &mut Idt, which: u8) {
+    match which {
+        0 => set_general_handler!(idt, gh, 0),
+        1 => set_general_handler!(idt, gh, 14),
+        2 => set_general_handler!(idt, gh, 47),
+        _ => set_general_handler!(idt, gh, 255),
+    }
+}
+
+fn sgh_case(out: &mut Out, form: &str, lo: u8, hi: u8, populated: bool, lit: u8) {
+    let mut idt: Box<Idt> = Box::new(Idt::new());
+    if populated {
+        install_other(&mut idt);
+    }
+    let before = raw(&idt);
+    let ok = catch(|| match form {
+        "incl" => install_incl(&mut idt, lo, hi),
+        "excl" => install_excl(&mut idt, lo, hi),
+        "all" => install_all(&mut idt),
+        _ => install_lit(&mut idt, lit),
+    })
+    .is_some();
+    let after = raw(&idt);
+    out.emit(
+        Ev::new("sgh")
+            .str("form", form)
+            .n("lo", lo as i64)
+            .n("hi", hi as i64)
+            .n("populated", populated as i64)
+            .n("cs", current_cs() as i64)
+            .str("k", if ok { "ok" } else { "panic" })
+            .words("before", &before)
+            .words("after", &after),
+    );
+}
+
+/// enter the gate's handler the way the CPU would: hardware frame (+ error code) on the
+/// interrupted stack, jump to the gate's offset; the stub's own iretq resumes at label 2
+#[inline(never)]
+unsafe fn deliver(target: u64, has_err: u64, err: u64, flags: u64, scratch: u64, cs: u64, ss: u64) -> (u64, u64, u64) {
+    let resumed_rsp: u64;
+    let flags_after: u64;
+    let resume_ip: u64;
+    core::arch::asm!(
+        "mov r12, rsp",
+        "mov rsp, {scratch}",
+        "mov r13, rsp",
+        "and rsp, -16",
+        "push {ss}",
+        "push r13",
+        "push {flags}",
+        "push {cs}",
+        "lea rax, [rip + 2f]",
+        "push rax",
+        "mov r13, rax",
+        "test {has_err}, {has_err}",
+        "jz 3f",
+        "push {err}",
+        "3:",
+        "jmp {target}",
+        "2:",
+        "mov r14, rsp",
+        "pushfq",
+        "pop r15",
+        "mov rsp, r12",
+        scratch = in(reg) scratch,
+        ss = in(reg) ss,
+        cs = in(reg) cs,
+        flags = in(reg) flags,
+        has_err = in(reg) has_err,
+        err = in(reg) err,
+        target = in(reg) target,
+        out("r14") resumed_rsp,
+        out("r15") flags_after,
+        out("rax") _,
+        out("r12") _,
+        out("r13") resume_ip,
+        clobber_abi("C"),
+    );
+    (resumed_rsp, flags_after, resume_ip)
+}
+
+core::arch::global_asm!(
+    ".global xv_landing",
+    "xv_landing:",
+    "mov rdi, rsp",
+    "pushfq",
+    "pop rsi",
+    "and rsp, -16",
+    "call xv_landing_report",
+    "ud2",
+);
+extern "C" {
+    fn xv_landing();
+}
+#[no_mangle]
+extern "C" fn xv_landing_report(rsp: u64, flags: u64) -> ! {
+    send(&[3, rsp, flags, 0, 0, 0, 0, 0, 0, 0]);
+    unsafe { libc::_exit(0) }
+}
+
+fn user_flags() -> u64 {
+    let f: u64;
+    unsafe { core::arch::asm!("pushfq", "pop {}", out(reg) f, options(preserves_flags)) };
+    f
+}
+fn current_ss() -> u64 {
+    let s: u16;
+    unsafe { core::arch::asm!("mov {0:x}, ss", out(reg) s, options(nomem, nostack, preserves_flags)) };
+    s as u64
+}
+
+/// run `f` in a forked child and collect the 80-byte records it sends
+fn in_child(f: impl FnOnce()) -> (Vec<[u64; 10]>, i32) {
+    let mut fds = [0i32; 2];
+    unsafe {
+        libc::pipe(fds.as_mut_ptr());
+        let pid = libc::fork();
+        if pid == 0 {
+            libc::close(fds[0]);
+            PIPE_W.store(fds[1], SeqCst);
+            crate::trap::MODE.store(0, SeqCst); // faults in the child are crashes of the code under test
+            f();
+            libc::_exit(0);
+        }
+        libc::close(fds[1]);
+        let mut recs = Vec::new();
+        loop {
+            let mut r = [0u64; 10];
+            let mut got = 0usize;
+            while got < 80 {
+                let n = libc::read(fds[0], (r.as_mut_ptr() as *mut u8).add(got) as *mut libc::c_void, 80 - got);
+                if n <= 0 {
+                    break;
+                }
+                got += n as usize;
+            }
+            if got < 80 {
+                break;
+            }
+            recs.push(r);
+        }
+        libc::close(fds[0]);
+        let mut st = 0i32;
+        libc::waitpid(pid, &mut st, 0);
+        (recs, st)
+    }
+}
+
+pub fn run_idt13(out: &mut Out, seed: u64, n: u64) {
+    let mut r = Rng::new(seed);
+    // (1) which vectors become present
+    let lat: [u8; 24] = [0, 1, 7, 8, 9, 14, 15, 16, 21, 22, 27, 28, 31, 32, 33, 47, 48, 63, 64, 100, 128, 254, 255, 200];
+    if n >= 100_000 {
+        for lo in 0..=255u8 {
+            for hi in lo..=255u8 {
+                sgh_case(out, "incl", lo, hi, (lo as u32 + hi as u32) % 5 == 0, 0);
+            }
+        }
+    } else {
+        for &lo in &lat {
+            for &hi in &lat {
+                sgh_case(out, "incl", lo, hi, r.chance(1, 3), 0);
+                if r.chance(1, 2) {
+                    sgh_case(out, "excl", lo, hi, r.chance(1, 3), 0);
+                }
+            }
+        }
+    }
+    for _ in 0..40 {
+        sgh_case(out, "excl", r.below(256) as u8, r.below(256) as u8, r.chance(1, 2), 0);
+    }
+    sgh_case(out, "all", 0, 255, false, 0);
+    sgh_case(out, "all", 0, 255, true, 0);
+    for (lit, v) in [(0u8, 0u8), (1, 14), (2, 47), (3, 255)] {
+        sgh_case(out, "lit", v, v, false, lit);
+        sgh_case(out, "lit", v, v, true, lit);
+    }
+    // (2) delivery into every installed stub
+    let mut idt: Box<Idt> = Box::new(Idt::new());
+    install_all(&mut idt);
+    let gates = raw(&idt);
+    let (cs, ss) = (current_cs(), current_ss());
+    let stacks: Vec<Vec<u8>> = (0..3).map(|_| vec![0u8; 1 << 16]).collect();
+    let base_flags = user_flags() & !0x8d5; // clear CF PF AF ZF SF OF
+    for v in 0..256usize {
+        let (lo, hi) = (gates[2 * v], gates[2 * v + 1]);
+        let present = (lo >> 47) & 1;
+        // gate offset decoded from the raw bytes by the harness (the specification re-derives it)
+        let target = (lo & 0xffff) | ((lo >> 48) << 16) | (hi << 32);
+        if present == 0 {
+            out.emit(Ev::new("deliver").n("v", v as i64).str("k", "absent").w("lo", lo).w("hi", hi).w("target", target).n("cs", cs as i64).n("ss", ss as i64).raw("recs", "[]").n("status", 0).raw("cases", "[]"));
+            continue;
+        }
+        let ncase = if v == 8 || v == 18 { 1 } else { 3 };
+        let mut cases: Vec<[u64; 4]> = Vec::new();
+        for c in 0..ncase {
+            let err = match (v + c) % 5 {
+                0 => 0,
+                1 => 1,
+                2 => u64::MAX,
+                3 => 0x85,
+                _ => r.next(),
+            };
+            let fl = base_flags | (r.next() & 0x8d5);
+            let st = &stacks[c % 3];
+            let top = (st.as_ptr() as u64 + (1 << 16) - 64 - 8 * (r.below(16))) & !7;
+            cases.push([err, fl, top, 0]);
+        }
+        let has_err = matches!(v, 8 | 10 | 11 | 12 | 13 | 14 | 17 | 21 | 29 | 30) as u64;
+        let cs2 = cases.clone();
+        let (recs, status) = in_child(|| {
+            for c in &cs2 {
+                GH_CALLS.store(0, SeqCst);
+                let (rr, fa, ip) = unsafe { deliver(target, has_err, c[0], c[1], c[2], cs, ss) };
+                send(&[2, rr, fa, GH_CALLS.load(SeqCst), ip, 0, 0, 0, 0, 0]);
+            }
+        });
+        let mut rj = String::from("[");
+        for (i, rc) in recs.iter().enumerate() {
+            if i > 0 {
+                rj.push(',');
+            }
+            rj.push('[');
+            for (j, x) in rc.iter().enumerate() {
+                if j > 0 {
+                    rj.push(',');
+                }
+                rj.push_str(&limbs(*x));
+            }
+            rj.push(']');
+        }
+        rj.push(']');
+        let mut cj = String::from("[");
+        for (i, c) in cases.iter().enumerate() {
+            if i > 0 {
+                cj.push(',');
+            }
+            cj.push_str(&format!("[{},{},{}]", limbs(c[0]), limbs(c[1]), limbs(c[2])));
+        }
+        cj.push(']');
+        out.emit(
+            Ev::new("deliver")
+                .n("v", v as i64)
+                .str("k", "present")
+                .w("lo", lo)
+                .w("hi", hi)
+                .w("target", target)
+                .n("cs", cs as i64)
+                .n("ss", ss as i64)
+                .raw("recs", &rj)
+                .n("status", status as i64)
+                .raw("cases", &cj),
+        );
+    }
+    // (3) iretq on a frame value: lands at exactly ip / sp / flags
+    for i in 0..24u64 {
+        let st = &stacks[(i % 3) as usize];
+        let sp = (st.as_ptr() as u64 + (1 << 16) - 128 - 8 * (r.below(32))) & !7;
+        let fl = base_flags | (r.next() & 0x8d5);
+        let ip = xv_landing as usize as u64;
+        let (recs, status) = in_child(|| {
+            let f = InterruptStackFrameValue::new(
+                VirtAddr::new(ip),
+                x86_64::structures::gdt::SegmentSelector(cs as u16),
+                x86_64::registers::rflags::RFlags::from_bits_retain(fl),
+                VirtAddr::new(sp),
+                x86_64::structures::gdt::SegmentSelector(ss as u16),
+            );
+            unsafe { f.iretq() };
+        });
+        let (k, rsp, flg) = match recs.first() {
+            Some(rc) if rc[0] == 3 => ("landed", rc[1], rc[2]),
+            _ => ("lost", 0, 0),
+        };
+        out.emit(Ev::new("iretq").w("sp", sp).w("flags", fl).str("k", k).w("rsp", rsp).w("rflags", flg).n("status", status as i64).n("nrecs", recs.len() as i64));
+    }
+}
